@@ -311,6 +311,31 @@ def failed_backward_then_reuse_probe(ctx):
                      {"first": 2.0 * mean_x2, "second": 4.0 * mean_x2, "dsecond_da": mean_x2})
 
 
+def caller_x0_probe(ctx):
+    """the built-in samplers leave the caller's x0 alone: it has the same values after the call, and a second call with the SAME x0 object
+    and the same seed returns the same result (round-6 seed C16/15: an accepted move of mh was copied into x, which starts as an alias
+    of x0)"""
+    from xitorch.integrate import mcquad
+    DTt = torch.float64
+    for meth, kw in (("mh", {"step_size": 0.8}), ("mhcustom", {"custom_step": lambda x, *p: x + 0.3})):
+        x0 = torch.tensor([0.5, -0.25], dtype=DTt)
+        x0c = x0.clone()
+        mu = torch.tensor([0.2, 0.1], dtype=DTt)
+        outs = []
+        ctx.count(("caller-x0", meth), nontrivial=True)
+        try:
+            for rep in range(2):
+                torch.manual_seed(1234)
+                outs.append(mcquad(lambda x: (x * x).sum(), lambda x, m: -((x - m) ** 2).sum(), x0, fparams=[], pparams=[mu], method=meth,
+                                   nsamples=60, nburnout=10, **kw))
+        except Exception as e:
+            ctx.fail("oracle", "mcquad:%s:caller-x0:exception" % meth, {}, repr(e)[:200], "a value")
+            continue
+        if not torch.equal(x0, x0c) or not torch.equal(outs[0], outs[1]):
+            ctx.fail("oracle", "mcquad:%s:caller-x0-modified" % meth, {"x0": x0c.tolist(), "nsamples": 60},
+                     {"x0_after": x0.tolist(), "first": float(outs[0]), "second_same_seed": float(outs[1])}, "x0 unchanged and the two calls equal")
+
+
 def oracle(ctx):
     import xitorch as xt
     from xitorch.integrate import mcquad
@@ -319,6 +344,7 @@ def oracle(ctx):
     round4_probes(ctx)
     aliased_params_probe(ctx)
     failed_backward_then_reuse_probe(ctx)
+    caller_x0_probe(ctx)
     step = lambda x, *p: x * -0.9 + 0.3
     for rep in range(ctx.n(4, 20)):
         ns, nb = rng.randrange(2, 9), rng.randrange(1, 5)
